@@ -279,7 +279,7 @@ func runC01(c *mon.Ctx) {
 	if !c.Quick() {
 		hs = []int{1, 2, 3, 4, 5, 6, 7, 8, 10}
 	}
-	modes := []string{"cold", "warm-smaller", "warm-same", "head-only"}
+	modes := []string{"cold", "warm-smaller", "warm-same", "head-only", "warm-larger"}
 
 	item := 0
 	for _, n := range ns {
@@ -338,8 +338,34 @@ func c01Scenario(c *mon.Ctx, r *rand.Rand, lg *world.Log, key, evil *world.Key, 
 	ctxInfo := map[string]any{"n": n, "h": h, "rec": rec, "mode": mode}
 
 	// ---- base store for the cache mode (built by honest lookups) ---------------------------
+	if mode == "warm-larger" {
+		// The cache was filled while talking to a server that was further ahead (a mirror that lags
+		// now serves size n): cached full tiles must be sliced down to the partial tiles of tree n.
+		n2 := n + 1 + r.IntN(2*n+6)
+		lg = world.NewLog("A", n2, n2, key)
+		scn.log = lg
+	}
 	base := world.New(c01Name, key, lg)
 	switch mode {
+	case "warm-larger":
+		n2 := len(lg.Mods)
+		base.Remote = base.HonestRemote(n2)
+		cl := c01NewClient(base, 0, h)
+		step := 1 + r.IntN(2)
+		for i := r.IntN(step + 1); i < n2; i += step {
+			if i == rec {
+				continue
+			}
+			if _, err := cl.Lookup(lg.Mods[i].Path, lg.Mods[i].Vers); err != nil {
+				c.Violation("honest-lookup-failed", caseID, map[string]any{"stage": "warm-up", "n": n2, "h": h, "rec": i, "err": err.Error()})
+				return
+			}
+		}
+		// the stored head is lost or older (never newer than what the lagging server signs)
+		base.Config = map[string][]byte{}
+		if r.IntN(2) == 0 {
+			base.Config[c01Name+"/latest"] = lg.Head(1 + r.IntN(n))
+		}
 	case "warm-smaller", "head-only":
 		if n > 1 {
 			s := 1 + r.IntN(n-1)
